@@ -34,7 +34,8 @@ enum {
   LIBCUCKOO_VH_ST_NREM = 13,
   LIBCUCKOO_VH_FS_NREM = 14,
   LIBCUCKOO_VH_ALL_UNLOCK_END = 15,
-  LIBCUCKOO_VH_BUCKET = 16
+  LIBCUCKOO_VH_BUCKET = 16,
+  LIBCUCKOO_VH_EMPLACED = 17
 };
 #else
 #define LIBCUCKOO_VERIF_HOOK(kind, obj, a, b)                                 \
